@@ -6,6 +6,8 @@
 (*        file = the JSON value save wrote, loaded = projection after load,  *)
 (*        legacy = the same file rewritten in the pymysensors layout (or     *)
 (*        null when the registry has no legacy form), loadedLegacy.          *)
+(*   kind "snapshot": states = the registries that existed while save ran,   *)
+(*        file = what it wrote, loaded = projection after load.              *)
 (*   kind "load": file = a generated JSON value (or a byte-level class),     *)
 (*        res = ok | readerror | other, loaded = projection after load.      *)
 EXTENDS Persist, Json, IOUtils
@@ -49,7 +51,16 @@ LoadOK(cs) ==
     /\ (cs.class = "missing") => (cs.res = "ok" /\ Reg(cs.loaded) = Reg(cs.before)
                                   /\ cs.created /\ Denote(cs.file).ok /\ Denote(cs.file).reg = Reg(cs.before))
 
-CaseOK(cs) == IF cs.kind = "roundtrip" THEN RoundTripOK(cs) ELSE LoadOK(cs)
+(* save ran while the registry kept changing: the file holds one of the registries that existed *)
+(* while it ran (states), never a mixture of several, and loads to exactly that one              *)
+SnapshotOK(cs) ==
+    LET d == Denote(cs.file) IN
+    /\ cs.saveRes = "ok" /\ cs.loadRes = "ok" /\ d.ok
+    /\ \E k \in 1..Len(cs.states) : d.reg = Reg(cs.states[k])
+    /\ Reg(cs.loaded) = d.reg
+
+CaseOK(cs) == IF cs.kind = "roundtrip" THEN RoundTripOK(cs)
+              ELSE IF cs.kind = "snapshot" THEN SnapshotOK(cs) ELSE LoadOK(cs)
 
 Init == i = 0
 Next == /\ i < Len(Cases)
